@@ -72,12 +72,14 @@ Bases(cls) ==
 Devs(cls) ==
   CASE cls = "quantized_linear" ->
          {<<"bits", "i:3">>, <<"integer", "i:2">>, <<"symmetric", "i:0">>, <<"keep_negative", "b:0">>, <<"alpha", "f:2.0">>,
-          <<"use_stochastic_rounding", "b:1">>, <<"scale_axis", "i:0">>, <<"qnoise_factor", "f:0.5">>, <<"use_variables", "b:1">>}
+          <<"use_stochastic_rounding", "b:1">>, <<"scale_axis", "i:0">>, <<"qnoise_factor", "f:0.5">>, <<"use_variables", "b:1">>,
+          <<"alpha", "v:0.5 2.0 1.0 0.25 1.5 4.0">>}      \* (a per-channel constant scale, as in the docstring's alpha=q.scale)
     [] cls = "quantized_bits" ->
          {<<"bits", "i:3">>, <<"integer", "i:2">>, <<"symmetric", "i:1">>, <<"keep_negative", "b:0">>, <<"alpha", "f:2.0">>,
           <<"use_stochastic_rounding", "b:1">>, <<"scale_axis", "i:0">>, <<"qnoise_factor", "f:0.5">>, <<"use_ste", "b:0">>,
           <<"use_variables", "b:1">>, <<"elements_per_scale", "i:2">>, <<"min_po2_exponent", "i:1">>, <<"max_po2_exponent", "i:-3">>,
-          <<"scale_axis", "l:0 1">>, <<"elements_per_scale", "l:2 3">>, <<"post_training_scale", "a:0.5">>}
+          <<"scale_axis", "l:0 1">>, <<"elements_per_scale", "l:2 3">>, <<"post_training_scale", "a:0.5">>,
+          <<"post_training_scale", "c:0.5 0.25 1.0 2.0">>}      \* (one scale per row: a (4, 1) array, needs scale_axis = 0)
           \* (an array-valued constant alpha is not in quantized_bits' domain: its constructor compares alpha with ==)
     [] cls = "bernoulli" -> {<<"alpha", "f:2.0">>, <<"temperature", "f:1.5">>, <<"use_real_sigmoid", "b:0">>}
     [] cls = "ternary" -> {<<"alpha", "f:2.0">>, <<"threshold", "f:0.75">>, <<"threshold", "f:0.0">>, <<"use_stochastic_rounding", "b:1">>,
@@ -121,6 +123,7 @@ Valid(cls, o) ==
   /\ (Has(o, "elements_per_scale") /\ o.elements_per_scale = "l:2 3") => o.scale_axis = "l:0 1"     \* one entry per scale axis
   /\ (Has(o, "elements_per_scale") /\ o.elements_per_scale = "i:2") => o.scale_axis = "i:0"
   /\ (Has(o, "post_training_scale") /\ o.post_training_scale # "None") => o.alpha = "s:auto_po2"     \* ValueError otherwise
+  /\ (Has(o, "post_training_scale") /\ o.post_training_scale = "c:0.5 0.25 1.0 2.0") => o.scale_axis = "i:0"
   /\ (Has(o, "min_po2_exponent") /\ (o.min_po2_exponent # "None" \/ o.max_po2_exponent # "None")) => o.alpha = "s:auto_po2"
   /\ (cls \in {"ternary", "stochastic_ternary"} /\ IsAuto(o)) => o.threshold = "None"
   /\ (cls = "stochastic_ternary") => IsAuto(o)              \* training branch asserts a string alpha
